@@ -85,6 +85,10 @@ func c02Topology(rng *kit.Rand) (nss []string, mounts []*c02Mount) {
 		{"", "ns1/", "ns1/sub/", "ns2/"},
 		{"", "t/", "t/u/", "t/u/w/"},
 		{"", "ns1/", "ns2/", "ns2/in/"},
+		// sibling namespaces whose names are string prefixes of one another, at the top and nested
+		{"", "a/", "ab/", "a-b/"},
+		{"", "p/", "p/a/", "p/ab/"},
+		{"", "a/", "a2/", "a2/in/"},
 	}
 	nss = trees[rng.Intn(len(trees))]
 	secretPaths := []string{"kv/", "kvx/", "team/a/", "team/ab/", "deep/x/y/", "k/"}
@@ -120,8 +124,32 @@ func c02Topology(rng *kit.Rand) (nss []string, mounts []*c02Mount) {
 
 func c02GenCaps(rng *kit.Rand) []string {
 	switch {
-	case rng.Chance(1, 7):
+	case rng.Chance(1, 10):
 		return []string{"deny"}
+	case rng.Chance(1, 9):
+		// deny listed together with other capabilities, first / in the middle / last, with repetitions
+		n := 1 + rng.Intn(3)
+		var out []string
+		for len(out) < n {
+			out = append(out, kit.Pick(rng, c02CapNames))
+		}
+		at := rng.Intn(len(out) + 1)
+		out = append(out[:at:at], append([]string{"deny"}, out[at:]...)...)
+		if rng.Chance(1, 4) {
+			out = append(out, kit.Pick(rng, out))
+		}
+		return out
+	case rng.Chance(1, 10):
+		// a list with repetitions in a generated order
+		out := []string{kit.Pick(rng, c02CapNames)}
+		for k := 0; k < 2+rng.Intn(3); k++ {
+			if rng.Chance(1, 2) {
+				out = append(out, kit.Pick(rng, out))
+			} else {
+				out = append(out, kit.Pick(rng, c02CapNames))
+			}
+		}
+		return out
 	case rng.Chance(1, 8):
 		return append([]string(nil), c02CapNames...)
 	}
@@ -170,6 +198,15 @@ func (w *c02World) genPolicy(rng *kit.Rand, ns, name string) *c02Policy {
 		}
 		seen[pat] = true
 		ru := c02Rule{Pat: pat, Caps: c02GenCaps(rng)}
+		if rng.Chance(1, 9) { // the old-style keyword, alone or next to a capabilities list
+			ru.Legacy = kit.Pick(rng, []string{"read", "write", "sudo", "deny", "read", "write"})
+			switch rng.Intn(3) {
+			case 0:
+				ru.Caps = nil
+			case 1:
+				ru.Caps = []string{"deny"}
+			}
+		}
 		if !w.TimedAt.IsZero() && rng.Chance(1, 4) {
 			ru.Expire = w.TimedAt
 		}
@@ -564,7 +601,10 @@ func (x *c02Run) rulesOf(t *c02Tok) []string {
 func (x *c02Run) ruleStrings(t *c02Tok, p *c02Policy) []string {
 	var out []string
 	for _, r := range p.Rules {
-		caps := "\x00" + strings.Join(r.Caps, ",")
+		// for directing requests: every capability the stanza names, also next to a deny
+		named := append([]string(nil), r.Caps...)
+		named = append(named, c02Rule{Legacy: r.Legacy}.eff()...)
+		caps := "\x00" + strings.Join(named, ",")
 		if !strings.Contains(r.Pat, "{{") {
 			out = append(out, p.NS+r.Pat+caps)
 			continue
@@ -582,6 +622,36 @@ func (x *c02Run) ruleStrings(t *c02Tok, p *c02Policy) []string {
 		}
 	}
 	return out
+}
+
+// denyStanzaWithOthers: a stanza of the token's policies whose (rendered) pattern is absPat names
+// deny together with other capabilities or with a granting legacy keyword.
+func (x *c02Run) denyStanzaWithOthers(t *c02Tok, absPat string) string {
+	if t == nil {
+		return ""
+	}
+	for _, n := range append(append([]string(nil), t.Policies...), c02EntPols(t)...) {
+		p := x.w.policy(t.NS, n)
+		if p == nil || !p.Exists {
+			continue
+		}
+		for _, r := range p.Rules {
+			if !r.listsDenyWithOthers() {
+				continue
+			}
+			pat := r.Pat
+			if strings.Contains(pat, "{{") {
+				var ok bool
+				if pat, ok = c02Render(pat, t.Entity, !p.AllowSlashes, !p.AllowWildcards); !ok {
+					continue
+				}
+			}
+			if p.NS+strings.TrimPrefix(pat, "/") == absPat {
+				return fmt.Sprintf("policy %s stanza %q: capabilities = %v, policy keyword %q", p.Name, r.Pat, r.Caps, r.Legacy)
+			}
+		}
+	}
+	return ""
 }
 
 // naiveTemplateGrant: a templated block of the token's policies that the reference drops would,
@@ -922,6 +992,9 @@ func (x *c02Run) check(q *c02Req, vd *c02Verdict, o *c02Outcome, stage string) b
 					anc = anc.Up
 				}
 				what += fmt.Sprintf(" [the token of namespace %q is a descendant of %s (namespace %q) whose tree revocation reported success]", q.Tok.NS, c02TokName(anc), c02NSOf(anc))
+			case strings.HasPrefix(vd.Reason, "policy: deny on ") && x.denyStanzaWithOthers(q.Tok, strings.TrimPrefix(vd.Reason, "policy: deny on ")) != "" && (len(o.Handlers) > 0 || o.OK || o.Carries):
+				class = "C02-request-served-on-path-whose-matching-stanza-lists-deny"
+				what += " [" + x.denyStanzaWithOthers(q.Tok, strings.TrimPrefix(vd.Reason, "policy: deny on ")) + "]"
 			case strings.HasPrefix(vd.Reason, "policy") && x.naiveTemplateGrant(q.Tok, vd.Abs) != "" && (len(o.Handlers) > 0 || o.OK || o.Carries):
 				class = "C02-templated-policy-block-honoured-with-forbidden-identity-value"
 				what += " [" + x.naiveTemplateGrant(q.Tok, vd.Abs) + "]"
@@ -993,6 +1066,12 @@ func (x *c02Run) check(q *c02Req, vd *c02Verdict, o *c02Outcome, stage string) b
 					break
 				}
 			}
+		}
+	}
+	if vd.Kind == "deny" && strings.HasPrefix(vd.Reason, "policy: deny on ") && q.Tok != nil {
+		if x.denyStanzaWithOthers(q.Tok, strings.TrimPrefix(vd.Reason, "policy: deny on ")) != "" {
+			r.Count("refused_by_stanza_listing_deny_with_other_capabilities", 1)
+			r.Nontrivial("deny-list|" + q.Op + "|" + vd.Abs)
 		}
 	}
 	if o.Exist > 0 && vd.Kind == "deny" {
@@ -1777,7 +1856,7 @@ func c02RunTopology(t *testing.T, r *kit.Result, seed int64, stream uint64, case
 func TestVerif_C02_Requests(t *testing.T) {
 	seed := kit.Seed(2)
 	shard, _ := kit.Shard()
-	r := kit.NewResult(t, "c02-requests", seed, "generated namespace trees (depth<=3) x recording secrets/auth mounts at nested and sibling-prefix paths x generated ACL policies (exact, trailing-*, + segments, deny, sudo) x tokens in the states {absent, garbage, one character / one byte (head, middle, signature) flipped, truncated signature, revoked, expired, exhausted, exhausted with the queued revocation of the spent token failing once, last use, CIDR-bound, disabled entity, batch, batch mutated / expired, batch created by a service token that is live / revoked completely / revoked through a generated API flow with one storage fault at a generated operation index (the record stays marked in storage) / expired and reaped / expired with the expiry job failing once (record left) / use-limited (creation must be refused), other namespace, root, root policy of a child or grand-child namespace (namespace root token, its child and its orphan child) presented with every namespace of the tree on secrets, auth and system paths, descendant of a revoked ancestor in another namespace}; a sweep of token-handle requests (auth/token/{lookup, lookup-accessor, renew, renew-accessor, revoke, revoke-accessor, revoke-orphan} by callers that hold these paths only in their own namespace, only on the path of a descendant namespace, without sudo or as a generated mix, and by every other token of the world, naming tokens of every namespace in client form, internal form or by accessor, addressed to any namespace) judged on the namespace of the named token; templated policies (entity name / id / metadata, alias name / id, group name / id / metadata selectors; with and without the two opt-ins; several per token, attached to the token or to the entity, processed in generated name order) held by entities whose names, metadata values and alias names are drawn from {+, *, a/b, .., x*, unicode, .hid, b/, +/a, plain} and by a token without entity, with requests aimed at what each block renders to and at what it would render to if the value went unchecked; request paths with dot forms (an ordinary dot-prefixed segment followed by . or .., at every position, doubled slashes around them, ..a, ..., %2e%2e as ordinary segments) on every mount kind; every request (plain, rule-directed and hostile forms: trailing and doubled slashes, ./.. segments, mount-boundary, namespace by header or by path prefix, unknown namespaces, restricted sys APIs in child namespaces, internal operations) is judged by the reference authoriser and compared with handler log, response class, tagged physical writes and a digest of the recording mounts' storage; configuration changes (policy rewrite/delete/recreate, flip of the allow_slashes / allow_wildcards opt-in of a templated policy, change of the name or a metadata value of an entity, token revocation by id / accessor / self, revocation of the parent of a batch token by six API flows with and without a storage fault, revocation of an inner node of a token chain that crosses namespace boundaries (parent namespace -> namespace -> namespace / child namespace, 3-4 levels, optional extra leaves) by the same flows followed at once by every other node of the chain, entity disable and entity policies, unmount / mount / remount, one seal-unseal cycle with requests against the sealed core) are bracketed by the same request before and immediately after; three of four topologies run with the cache (and therefore the policy LRU) enabled, half on a transactional store. A case is non-trivial when (a) a request was refused only because of the token state while its policies allow it, (b) an authorised request reached the handler, or (c) a mutation flipped the verdict of the very next request; distinct by (state, op, mount, backend path)")
+	r := kit.NewResult(t, "c02-requests", seed, "generated namespace trees (depth<=3) x recording secrets/auth mounts at nested and sibling-prefix paths x generated ACL policies (exact, trailing-*, + segments, deny, sudo) x capability lists in generated orders with repetitions, deny first / in the middle / last next to other capabilities, the old-style policy keyword alone and next to a list; namespace trees incl. siblings whose names are string prefixes of one another (a / ab / a-b / a2, p/a / p/ab); tokens in the states {absent, garbage, one character / one byte (head, middle, signature) flipped, truncated signature, revoked, expired, exhausted, exhausted with the queued revocation of the spent token failing once, last use, CIDR-bound, disabled entity, batch, batch mutated / expired, batch created by a service token that is live / revoked completely / revoked through a generated API flow with one storage fault at a generated operation index (the record stays marked in storage) / expired and reaped / expired with the expiry job failing once (record left) / use-limited (creation must be refused), other namespace, root, root policy of a child or grand-child namespace (namespace root token, its child and its orphan child) presented with every namespace of the tree on secrets, auth and system paths, descendant of a revoked ancestor in another namespace}; a sweep of token-handle requests (auth/token/{lookup, lookup-accessor, renew, renew-accessor, revoke, revoke-accessor, revoke-orphan} by callers that hold these paths only in their own namespace, only on the path of a descendant namespace, without sudo or as a generated mix, and by every other token of the world, naming tokens of every namespace in client form, internal form or by accessor, addressed to any namespace) judged on the namespace of the named token; templated policies (entity name / id / metadata, alias name / id, group name / id / metadata selectors; with and without the two opt-ins; several per token, attached to the token or to the entity, processed in generated name order) held by entities whose names, metadata values and alias names are drawn from {+, *, a/b, .., x*, unicode, .hid, b/, +/a, plain} and by a token without entity, with requests aimed at what each block renders to and at what it would render to if the value went unchecked; request paths with dot forms (an ordinary dot-prefixed segment followed by . or .., at every position, doubled slashes around them, ..a, ..., %2e%2e as ordinary segments) on every mount kind; every request (plain, rule-directed and hostile forms: trailing and doubled slashes, ./.. segments, mount-boundary, namespace by header or by path prefix, unknown namespaces, restricted sys APIs in child namespaces, internal operations) is judged by the reference authoriser and compared with handler log, response class, tagged physical writes and a digest of the recording mounts' storage; configuration changes (policy rewrite/delete/recreate, flip of the allow_slashes / allow_wildcards opt-in of a templated policy, change of the name or a metadata value of an entity, token revocation by id / accessor / self, revocation of the parent of a batch token by six API flows with and without a storage fault, revocation of an inner node of a token chain that crosses namespace boundaries (parent namespace -> namespace -> namespace / child namespace, 3-4 levels, optional extra leaves) by the same flows followed at once by every other node of the chain, entity disable and entity policies, unmount / mount / remount, one seal-unseal cycle with requests against the sealed core) are bracketed by the same request before and immediately after; three of four topologies run with the cache (and therefore the policy LRU) enabled, half on a transactional store. A case is non-trivial when (a) a request was refused only because of the token state while its policies allow it, (b) an authorised request reached the handler, or (c) a mutation flipped the verdict of the very next request; distinct by (state, op, mount, backend path)")
 	defer r.Write(t)
 	ntopo := kit.N(24, 100)
 	nreq := kit.N(800, 2500)
@@ -1821,6 +1900,8 @@ func TestVerif_C02_Requests(t *testing.T) {
 	r.Require("batch_refused_while_parent_record:absent", int64(ntopo*10))
 	r.Require("world_faults_fired", int64(ntopo*2))
 	r.Require("mutation_faults_fired", int64(ntopo))
+	r.Require("refused_by_stanza_listing_deny_with_other_capabilities", int64(ntopo*8))
+	r.Require("nsroot_outside_subtree_refused:prefix-sibling", int64(ntopo*3))
 	r.Require("mutations:template-optin-flip", int64(ntopo*2))
 	r.Require("mutations:entity-identity-change", int64(ntopo*2))
 	r.Require("world_templated_families", int64(ntopo*2))
